@@ -110,13 +110,15 @@ CHECKS = {
          "pinned tree's combine is refuted by a machine-checked schedule. merge! also at the granularity of EVERY access, the talkback "
          "cells included (ThreadsFine.v, compared with the crate on free-schedule runs): additionally no delivery begins after the "
          "terminal message, every member told to stop at most once and - at rest after the end - exactly once; merge.rs before fix "
-         "13d4e7e is refuted.",
+         "13d4e7e is refuted; combine! at that granularity by a stuttering transfer theorem.",
          "Coq invariant proofs over an interleaving model + scheduler-controlled differential test against real threads"),
  "C19": ("proof", "As C18 for take(n): the repaired code (fetch_update) never over-delivers under any schedule; the unrepaired code is refuted "
          "by a machine-checked schedule that is also replayed on the crate. take behind merge! (ThreadsTakeMerge.v, the composition, "
          "compared with the crate step by step): for every schedule and ANY number of failing members at most n data, the sink ended at "
          "most once and - once n data were delivered - exactly once, every member told to stop exactly once or ended by itself; take.rs "
-         "before fix 7f77d2f is refuted.",
+         "before fix 7f77d2f is refuted. Likewise take behind combine! (ThreadsTakeCombine.v: at most n complete tuples of sent values, "
+         "sink ended exactly once, every member told to stop exactly once), and take alone at the granularity of every access "
+         "(Inv_threads_take_fine.v).",
          "Coq interleaving model + scheduler-controlled differential test"),
  "C20": ("translation_validation", "Coq: a model of the call!/trace!/instrument! macros of src/utils/mod.rs (Tracing.v) - if the macro arguments "
          "after the format string are pure, the three builds (feature off; on without subscriber; on with a TRACE subscriber) perform the "
